@@ -299,6 +299,10 @@ class EqArray(object):
 def mkval(spec):
     from hotxlfp.formulas import error
     k = spec[0]
+    if k == 'excobj':
+        return ValueError('boom')          # an exception OBJECT kept as a value (never raised): a value like any other
+    if k == 'excclass':
+        return KeyError
     if k == 'eqall':
         return EqAll()
     if k == 'eqraises':
@@ -367,7 +371,7 @@ def gen_value(rng, depth=2):
         return ['err', rng.choice(CODES)]
     if r < 0.85 and depth > 0:
         return ['tuple', [gen_value(rng, depth - 1) for _ in range(rng.randrange(0, 3))]]
-    return [rng.choice(['dict', 'set', 'bytes', 'complex', 'object', 'plainobject', 'fn', 'nan', 'inf', 'type'])]
+    return [rng.choice(['dict', 'set', 'bytes', 'complex', 'object', 'plainobject', 'fn', 'nan', 'inf', 'type', 'excobj', 'excclass'])]
 
 
 # ------------------------------------------------------------------ names
@@ -944,7 +948,7 @@ def cases(rng, ctx):
     for spec in ([['int', '0']], [['float', (0.5).hex()]], [['str', '']], [['bool', False]], [['none']], [['list', []]],
                  [['list', [['list', [['int', '1']]], ['none']]]], [['date', [2020, 2, 29, 1, 2, 3, 0]]], [['tuple', []]], [['dict']],
                  [['set']], [['bytes']], [['complex']], [['object']], [['plainobject']], [['fn']], [['nan']], [['inf']], [['type']],
-                 [['eqall']], [['eqraises']], [['eqarray']]) + tuple(
+                 [['eqall']], [['eqraises']], [['eqarray']], [['excobj']], [['excclass']]) + tuple(
                      [['err', code]] for code in CODES):
         out.append({'kind': 'var', 'name': 'value_x', 'v': spec[0]})
     # never-set names
